@@ -36,3 +36,17 @@ Print Assumptions C01_pinned_sha512_refuted.
 (* non-vacuity *)
 Example C01_nonvacuous : hash_oneshot SHA512 (repeat 97 112) = SHA_spec SHA512 (repeat 97 112) /\ hshape (hfresh SHA256).
 Proof. split; [vm_compute; reflexivity|apply hshape_fresh]. Qed.
+
+From HV Require Import Model_Sha1Transform Proofs_Sha1Transform.
+(* the transform as the code computes it (16-word circular schedule, rotating register roles, the macros' boolean functions) is the FIPS 180-4 compression function *)
+Theorem C01_sha1_transform : forall H blk, H_ok H -> length blk = 64%nat -> sha1_compress_code H blk = sha1_compress H blk.
+Proof. exact sha1_compress_code_correct. Qed.
+Print Assumptions C01_sha1_transform.
+
+(* non-vacuity: the initial chaining value satisfies H_ok; a concrete 64-byte block with both sides computed *)
+Example C01_sha1_transform_nonvacuous :
+  let blk := map (fun i => (N.of_nat i * 37 + 11) mod 256) (seq 0 64) in
+  H_ok IV1 /\ length blk = 64%nat /\
+  sha1_compress_code IV1 blk = [2722219411; 2239210116; 3929933266; 1892279528; 476977544] /\
+  sha1_compress IV1 blk = [2722219411; 2239210116; 3929933266; 1892279528; 476977544].
+Proof. split; [exact IV1_ok|]. vm_compute. repeat split; reflexivity. Qed.
